@@ -114,12 +114,97 @@ def rxMatch (rx : RxOracle) (p : Option RegexId) (s : Str) : Bool :=
   | some id => rx id s
   | none => false
 
-/-- a request as the router sees it: the variable context (`variable.GetString`, `none` = error/unset)
-and the header map (`headers.Get`); `dsl` is the CEL-evaluation oracle for DSL rules -/
+/-! ### configuration records the regenerated constructors read (`v2.HeaderMatcher`) -/
+
+/-- an occurrence of a regular-expression pattern in the configuration: its oracle identifier and whether
+`regexp.Compile` accepts it -/
+structure Rx where
+  id : RegexId
+  ok : Bool
+deriving DecidableEq, Repr, Inhabited
+
+/-- `v2.HeaderMatcher`; `rx` describes `value` read as a pattern (relevant when `regex = true`) -/
+structure HeaderCfg where
+  name : Str
+  value : Str
+  regex : Bool
+  rx : Rx
+deriving DecidableEq, Repr, Inhabited
+
+/-- `regexp.Compile(s)` as `NewKeyValueData` calls it for the header matcher `h`: the compiled pattern (a non-nil
+`*regexp.Regexp`, here `some id`) or an error (`none`).  The oracle knows the pattern text `h.value` only: compiling
+any other string is reported as an error, so code that compiles something else than the configured value cannot agree
+with the implementation. -/
+def HeaderCfg.compile (h : HeaderCfg) (s : Str) : Option (Option RegexId) :=
+  if s = h.value ∧ h.rx.ok = true then some (some h.rx.id) else none
+
+/-- `len(l)` of a Go slice -/
+def listLen {α : Type} (l : List α) : Int := l.length
+
+/-- `l[0]` of a Go slice the code has tested non-empty (Go panics otherwise; the Lean side yields the zero value) -/
+def listAt0 {α : Type} [Inhabited α] (l : List α) : α := l.head?.getD default
+
+/-- `RPCRouteRuleImpl` (pkg/router/rpc_rule.go): the fields selection depends on; the embedded rule base (route
+action, timeouts, ...) is opaque here -/
+structure RpcRule where
+  RouteRuleImplBase : Unit
+  configHeaders : List KeyValueData
+  fastmatch : Str
+deriving Repr, Inhabited
+
+/-- `BaseHTTPRouteRule` (pkg/router/http_rule.go): `configQueryParameters = none` is the nil interface value -/
+structure HttpBase where
+  RouteRuleImplBase : Unit
+  configHeaders : HttpHeaderMatcher
+  configQueryParameters : Option (List KeyValueData)
+deriving Repr, Inhabited
+
+/-! ### request header maps (`api.HeaderMap.Get`) -/
+
+/-- which `api.HeaderMap` implementation carries the request headers:
+* `exact`: `protocol.CommonHeader` (a Go map) and the xprotocol header maps (`header.BytesHeader` of bolt / boltv2 /
+  tars ...): keys are compared byte by byte;
+* `fold`: the HTTP/1 map (`mosn.io/pkg/protocol/http.RequestHeader` over fasthttp): every key is normalised when it is
+  stored and when it is looked up, so keys are compared ignoring ASCII case; a request may carry a name more than
+  once, `Get` returns the first stored value;
+* `h2`: the HTTP/2 request map (`pkg/protocol/http2.ReqHeader` over `net/http.Header`): keys are canonicalised (compared
+  ignoring case), a header whose first value is empty is reported as absent, and the pseudo headers `:authority`,
+  `:path`, `:method` are answered from the request line (every other `:name` is absent). -/
+inductive MapKind | exact | fold | h2
+deriving DecidableEq, Repr, Inhabited
+
+/-- first stored value under a key equal to `k` -/
+def getExact : List (Str × Str) → Str → Option Str
+  | [], _ => none
+  | (k', v) :: r, k => if k' = k then some v else getExact r k
+
+/-- first stored value under a key equal to `k` ignoring ASCII case -/
+def getFold : List (Str × Str) → Str → Option Str
+  | [], _ => none
+  | (k', v) :: r, k => if equalFold k' k then some v else getFold r k
+
+/-- a request as the router sees it: the variable context (`variable.GetString`, `none` = error/unset), the header
+map (its implementation kind and the name/value pairs the request carries, in stored order; `pseudo` = the request
+line of an HTTP/2 request: authority, path, method) and `dsl`, the CEL-evaluation oracle for DSL rules -/
 structure Req where
   var : Str → Option Str
-  hdr : Str → Option Str
+  kind : MapKind := .exact
+  hdrs : List (Str × Str) := []
+  pseudo : List (Str × Str) := []
   /-- oracle: the value of the compiled DSL (CEL) expression `i` on this request (`none` = evaluation error) -/
   dsl : Nat → Option Bool := fun _ => none
+  /-- oracle: `http.ParseQueryString` (only reached when a query-parameter matcher is installed, which no constructor does) -/
+  pq : Str → List (Str × Str) := fun _ => []
+
+/-- `headers.Get(key)` of the request's header map -/
+def Req.hdr (r : Req) (key : Str) : Option Str :=
+  match r.kind with
+  | .exact => getExact r.hdrs key
+  | .fold => getFold r.hdrs key
+  | .h2 =>
+    if key.head? = some ':' then getExact r.pseudo key
+    else match getFold r.hdrs key with
+      | some v => if v = [] then none else some v
+      | none => none
 
 end MosnVerif.Model.Route
